@@ -96,7 +96,7 @@ def run(R):
                  "only if InitChain refuses the export with 'invalid genesis version' (regression of 0bb355b) does the harness rewrite the version string so that the deeper comparison can run; the refusal itself is reported as import-panic:upgrade/version",
                  "restart schedules: besides the same-time restart every history is also re-imported under one (history 0 and the thorough tier: all) of later-7s, later-35d (beyond every pending deadline of the populated states), higher-1000 (InitialHeight + 1000) and both; a freshly replayed original chain and the re-imported chain then get the same further blocks at the same later times; balances are not compared under a height shift (block rewards depend on the height through the validator-performance window)",
                  "metamorphic import obligation: every exported genesis is also imported with the entries of every top-level record list of every module reversed (even histories) / shuffled (odd; history 0 and thorough: both); the raw stores must equal those of the unpermuted import and the same probes must answer alike. Kept in order: customstaking.validators (order of the validator updates handed to consensus), bank.supply (sdk.Coins must be sorted), genutil.gen_txs (applied in list order); arrays of scalars and arrays nested inside records (coins, permission lists, token lists) are values, not record lists",
-                 "window parameters: every history draws the parameters that govern how long something is kept (distributor SnapPeriod 1..5 instead of 1000 in 60% of the histories and in history 0, poll duration 10 s, basket LimitsPeriod 8 s, AutocompoundIntervalNumBlocks 1..3, MaxMischance 2..4, proposal end / enactment times 120/60 s, one 700000 s block so that the unstaking period elapses) so that each time/height-windowed store class is in its steady state (full window, entries being pruned) at export; the first block after the restart is probed (validator vote counts, fees treasury, balances)",
+                 "window parameters: every history draws the parameters that govern how long something is kept (distributor SnapPeriod 1..5 instead of 1000 in 60% of the histories and in history 0, poll duration 10 s, basket LimitsPeriod 8 s, AutocompoundIntervalNumBlocks 1..3, MaxMischance 2..4, proposal end / enactment times 120/60 s, one long block of 8 days / 31 days with the minimum inflation period / 361 days, so that the unstaking period elapses and the periodic or the year-start supply snapshot rolls over alone) so that each time/height-windowed store class is in its steady state (full window, entries being pruned) at export; the first block after the restart is probed (validator vote counts, fees treasury, balances)",
                  "awkward export moments covered by the histories: proposals in voting / in enactment / finished, poll active or expired, undelegation pending or matured, validators paused / inactive (by keeper and by real downtime) / jailed (keeper and double-sign evidence) / just joined, custody transfer pooled with one of two approvals, dApp bootstrapping, collective bonded, software upgrade pending / being executed (validators paused, plan still next) / executed (current plan), address rotation in the last block; restarts exactly at and 1 ns after the next proposal deadline",
                  "continuation after the restart (same signed transactions on both chains): bank send, create role, undelegate, new staking pool, claim rewards, claim spending pool, register identity record, basket mint, custody approval, collective contribution, dApp bond, poll creation, then blocks across all deadlines and claims of matured undelegations",
                  "auth / bank / params / consensus (SDK modules) are compared raw, not modelled"]
@@ -138,6 +138,14 @@ def run(R):
         R.oblige("multiplicity: every record list of the exported genesis holds >= 2 entries in some history (%d lists)" % len(listmax),
                  not single, "lists that never hold more than one entry: %s" % single)
         R.coverage["genesis_list_max_entries"] = listmax
+        # distinct values: two GenesisState fields of the same Go type (snapshot pairs, counter pairs, lists of the
+        # same record type; derived by gen_genesis) must hold different values at export in some history, otherwise an
+        # export / import that swaps them or copies one into the other round-trips "exactly"
+        pairs = {k[5:]: v for k, v in dist.items() if k.startswith("pair:")}
+        same = sorted(k for k, v in pairs.items() if v == 0)
+        R.oblige("distinct values: each of the %d pairs of same-typed GenesisState fields holds different values at export in some history" % len(pairs),
+                 not same, "pairs never distinguished: %s" % same)
+        R.coverage["same_type_field_pairs_distinguished_in_n_histories"] = pairs
         R.samples = [slim(cases[0], "sample"), slim(cases[len(cases) // 2], "sample")]
         R.coverage.update({"traces_validated_against_impl": total,
                            "input_distribution": {k: v for k, v in dist.items() if k.startswith("step:")},
